@@ -35,8 +35,8 @@ OpSpace ==
     \cup [op : {"close"}, h : Handles]
     \cup [op : {"readv"}, h : 0..1, len : 0..1]          \* handles 0,1 hold files/directories, handle 2 sockets:
     \cup [op : {"writev"}, h : 0..1, data : 0..1]        \* no transfer that could block forever on a socket
-    \cup [op : {"readfix"}, h : 0..1, buf : 0..1, len : 0..1]   \* read/write through a registered buffer
-    \cup [op : {"writefix"}, h : 0..1, buf : 0..1, data : 0..1]
+    \cup [op : {"readfix"}, h : 0..1, buf : 0..1, len : 0..1, boff : 0..1]   \* read/write through a registered buffer,
+    \cup [op : {"writefix"}, h : 0..1, buf : 0..1, data : 0..1, boff : 0..1] \* at its start or 8 bytes into it
     \cup [op : {"statx"}, dir : {0}, name : {0, 1, 2, 3, 4, 7}]
     \cup [op : {"statx"}, dir : {1}, name : {0, 5}]
     \cup [op : {"statx"}, dir : {2}, name : {6, 0}]
